@@ -23,7 +23,7 @@ func init() {
 	register(&Rule{ID: "LK5", Min: 3, Run: ruleLK5,
 		Doc: "single-commit-per-command: on every path of every entry point at most one commit (append-open, rename onto the log, or other visible mutation of a LOG path) executes; a commit in a CFG cycle counts as unbounded; reported at the innermost function whose own call sites exceed one. An identity rewrite - the replace primitive handed exactly what readEvents just returned for the same path (a tail repair) - changes nothing a reader can see and is not counted"})
 	register(&Rule{ID: "LK6", Min: 3, Run: ruleLK6,
-		Doc: "no-async / no-abort: no go statement, no os/exec, raw syscalls, unsafe or cgo anywhere in the module; no os.Exit, log.Fatal or explicit panic in internal/ergo"})
+		Doc: "no-async / no-abort: no go statement, no timer callback or signal handler (time.AfterFunc, signal.Notify), no os/exec, raw syscalls, unsafe or cgo anywhere in the module; no os.Exit, log.Fatal or explicit panic in internal/ergo"})
 	register(&Rule{ID: "LK7", Min: 2, Run: ruleLK7,
 		Doc: "readers-lock-free: list, show, where and quickstart cannot reach the lock primitive or flock"})
 }
@@ -546,13 +546,26 @@ func (c *Ctx) loaderKind(fn *ssa.Function) string {
 		case cal == re:
 			// replayEvents(readEvents(X))
 			var src *ssa.Call
+			viaLoader := ""
 			for _, a := range cl.Call.Args {
 				if rc, ri := callOf(resolve(a)); rc != nil && ri <= 0 && calleeOf(&rc.Call) == rd {
 					src = rc
+				} else if rc != nil {
+					if k := c.eventsLoaderKind(calleeOf(&rc.Call)); k != "" {
+						src, viaLoader = rc, k
+					}
 				}
 			}
 			if src == nil || len(src.Call.Args) == 0 {
 				return ""
+			}
+			if viaLoader == "dir" {
+				// replayEvents(loadEvents(dir)): the helper chooses the file for the directory it is handed
+				if _, isPrm := resolve(src.Call.Args[0]).(*ssa.Parameter); !isPrm {
+					return ""
+				}
+				kind = "dir"
+				continue
 			}
 			if _, isCh := c.chooserDir(src.Call.Args[0], env{}); isCh {
 				kind = "dir"
@@ -589,6 +602,61 @@ func (c *Ctx) loaderKind(fn *ssa.Function) string {
 		return ""
 	}
 	c.loaderMemo[fn] = kind
+	return kind
+}
+
+// eventsLoaderKind: h hands back the events read from the log (as one of its results) and nothing else of its own making:
+// every non-nil []Event it returns is the result of readEvents(P) with P the chooser's file for its directory parameter
+// ("dir") or its path parameter ("path"), and every error it returns is readEvents' (loadEvents(dir) = (path, events, err)).
+func (c *Ctx) eventsLoaderKind(h *ssa.Function) string {
+	rd := c.F.Anchors["readEvents"]
+	if h == nil || h == rd || rd == nil || h.Blocks == nil || !c.InModule(h) || len(h.Params) == 0 || c.commitFuncs()[h] {
+		return ""
+	}
+	res := h.Signature.Results()
+	ei := -1
+	for i := 0; i < res.Len(); i++ {
+		if sl, ok := res.At(i).Type().Underlying().(*types.Slice); ok && namedTypeName(sl.Elem()) == "ergo.Event" {
+			ei = i
+		}
+	}
+	if ei < 0 || res.At(res.Len()-1).Type().String() != "error" {
+		return ""
+	}
+	kind := ""
+	for _, r := range returnsOf(h) {
+		if r.Block().Comment == "recover" || len(r.Results) != res.Len() {
+			continue
+		}
+		// the error: nil, or readEvents' own
+		ev := returnedValue(r, res.Len()-1)
+		if !isNilConst(ev) {
+			for _, sv := range errorSourceValues(r) {
+				cl, ok := sv.(*ssa.Call)
+				if !ok || calleeOf(&cl.Call) != rd {
+					return ""
+				}
+			}
+		}
+		v := resolve(returnedValue(r, ei))
+		if isNilConst(v) {
+			continue
+		}
+		cl, idx := callOf(v)
+		if cl == nil || idx != 0 || calleeOf(&cl.Call) != rd || len(cl.Call.Args) == 0 {
+			return ""
+		}
+		if d, isCh := c.chooserDir(cl.Call.Args[0], env{}); isCh {
+			if _, isPrm := resolve(d).(*ssa.Parameter); !isPrm {
+				return ""
+			}
+			kind = "dir"
+		} else if _, isPrm := resolve(cl.Call.Args[0]).(*ssa.Parameter); isPrm {
+			kind = "path"
+		} else {
+			return ""
+		}
+	}
 	return kind
 }
 
@@ -794,6 +862,44 @@ func (c *Ctx) loadsBeforeCommits(h *ssa.Function, commit map[*ssa.Function]bool,
 	return true
 }
 
+// readsLogOnSuccess: h is a non-committing module helper with an error result every successful return of which lies behind
+// the success of a loader call made in h itself (it cannot succeed without having read the log).
+func (c *Ctx) readsLogOnSuccess(h *ssa.Function) bool {
+	if h == nil || h.Blocks == nil || !c.InModule(h) || c.commitFuncs()[h] {
+		return false
+	}
+	res := h.Signature.Results()
+	if res.Len() == 0 || res.At(res.Len()-1).Type().String() != "error" {
+		return false
+	}
+	pass := map[edge]bool{}
+	for _, call := range callsIn(h) {
+		cv, ok := call.(*ssa.Call)
+		if !ok {
+			continue
+		}
+		if cal := calleeOf(&cv.Call); cal != nil && c.isLoader(cal) {
+			for e := range nilErrEdges(h, cv) {
+				pass[e] = true
+			}
+		}
+	}
+	if len(pass) == 0 {
+		return false
+	}
+	n := 0
+	for _, r := range c.nonFailingReturns(h) {
+		if r.Block().Comment == "recover" {
+			continue
+		}
+		n++
+		if !mustPassEdges(h, r.Block(), pass) {
+			return false
+		}
+	}
+	return n > 0
+}
+
 // hasOwnCommitEffect: fn itself performs a committing file operation (it is a write primitive, not a section helper).
 func (c *Ctx) hasOwnCommitEffect(fn *ssa.Function) bool {
 	for _, e := range c.F.Effects {
@@ -832,6 +938,8 @@ func ruleLK4(c *Ctx) {
 				loads = append(loads, call)
 			} else if tgt, _ := forwardedCall(call.Common()); tgt != nil && c.isLoader(tgt) {
 				loads = append(loads, call) // l.read(): a method of the store object forwarding to the loader
+			} else if c.readsLogOnSuccess(cal) {
+				loads = append(loads, call) // planSetUpdates(...): read, validate and build in one helper; it succeeds only having read
 			}
 			if commit[cal] {
 				commits = append(commits, call)
@@ -1219,6 +1327,14 @@ func ruleLK6(c *Ctx) {
 			case *ssa.Go:
 				nGo++
 				c.bad(c.Name(fn), fmt.Sprintf("go-statement#%d", nGo), c.Pos(x.Pos()), "goroutine started: effects can escape the critical section / outlive the command")
+			case ssa.CallInstruction:
+				// a timer callback or a signal channel is a goroutine by another name: what it does (print, exit) happens at a
+				// moment unrelated to the command's commit
+				switch n := calleeFullName(x.Common()); n {
+				case "time.AfterFunc", "os/signal.Notify", "os/signal.NotifyContext", "context.AfterFunc":
+					nGo++
+					c.bad(c.Name(fn), fmt.Sprintf("async-callback %s#%d", n, nGo), c.Pos(x.Pos()), "an asynchronous callback is armed ("+n+"): whatever it does - ending the process with its own exit status included - happens at a moment unrelated to the command's commit, so a command can be reported as failed after its events were recorded")
+				}
 			case *ssa.Panic:
 				if inErgo && x.Pos().IsValid() {
 					nPanic++
@@ -1252,7 +1368,7 @@ func ruleLK6(c *Ctx) {
 			}
 		}
 	}
-	c.check(nGo == 0, "<module>", "no-go-statements", "-", "0 go statements in the module", fmt.Sprintf("%d go statements", nGo))
+	c.check(nGo == 0, "<module>", "no-go-statements", "-", "0 go statements, timer callbacks or signal handlers in the module", fmt.Sprintf("%d go statements / asynchronous callbacks", nGo))
 	c.check(nForbidden == 0 && nUnsafe == 0, "<module>", "no-exec-unsafe", "-", "no exec/raw syscall/unsafe/cgo", fmt.Sprintf("%d forbidden calls, %d forbidden imports", nForbidden, nUnsafe))
 	c.check(nExit == 0 && nPanic == 0, "<module>", "no-exit-panic-in-library", "-", "no os.Exit/log.Fatal/panic in internal/ergo", fmt.Sprintf("%d exit calls, %d panics", nExit, nPanic))
 }
